@@ -466,8 +466,8 @@ fn if_helper<'a, 'b: 'a>(w: &mut Vec<u8>,
 			w.write_u8(opcode)?;
 			w.write_i16(branch)?;
 		} else {
-			// +1 for the opcode, +2 for the branch
-			let branch = compute_signed_offset(opcode_pos + 1 + 2, target);
+			// +1 for the opcode, +2 for the branch (computed on i32: `opcode_pos + 1 + 2` can exceed u16::MAX)
+			let branch = compute_signed_offset(opcode_pos, target) - (1 + 2);
 
 			w.write_u8(opposite_opcode)?;
 			// target the instruction after the GOTO_W
@@ -479,7 +479,7 @@ fn if_helper<'a, 'b: 'a>(w: &mut Vec<u8>,
 	} else if wide.contains(&instruction_index) {
 		unwritten.push(UnwrittenLabel {
 			// target the goto_w instruction: +1 for the opposite_opcode, +2 for the branch
-			opcode_pos: opcode_pos + 1 + 2,
+			opcode_pos: opcode_pos.checked_add(1 + 2).context("cannot write code: code size exceeded u16::MAX")?,
 			instruction_index,
 			label,
 			// target the branch of the goto_w instruction:
